@@ -2,6 +2,7 @@ import GlueVerif.Lemmas.C10Top
 import GlueVerif.Lemmas.C10Hist
 import GlueVerif.Lemmas.C10Reduce
 import GlueVerif.Lemmas.C10Dtype
+import GlueVerif.Lemmas.C10Seq
 /-!
 # C10 — statistics and histograms equal their definition regardless of chunking or views
 
@@ -226,6 +227,100 @@ theorem accept_witness :
     specAccept (.percentile 50) [.fin (-128), .fin 127] (.fin (255 / 2)) = false ∧
     specAccept .maximum [.fin 9007199254740993, .fin 3] (.fin 9007199254740992) = true ∧
     specAccept .maximum [.fin 16777217, .fin 3] (.fin 16777216) = false := by
+  decide +kernel
+
+/-! ## sequences of calls on the same dataset and the same subset-state objects (round 3)
+
+The property holds for every call *whatever was computed before*.  `GlueVerif.StatsSeq` re-states
+`Data.compute_statistic` / `compute_histogram` as programs over a heap of ndarray objects with identity:
+`to_mask` of a memoised state returns **the cached object**, `mask[subarray_slices]` and `comp[view]`
+are views sharing memory, `&=` and `arr[~keep] = nan` are in-place writes. -/
+
+open GlueVerif.StatsSeq in
+/-- **A statistic performs no in-place write on its operands.** For every heap with a coherent
+`to_mask` cache, every statistic call (any path: chunk loop, no selection, `SliceSubsetState`
+shortcut, minimal sub-array on a view of the cached mask, bail-out, empty mask): every ndarray object
+that existed before the call — the components' stored arrays, every cached mask — has the same value
+afterwards (`Frame`: the call only allocates, and writes only to what it allocated: `keep` is a fresh
+array, the data is copied before `data[~keep] = nan`), and the cache stays coherent. -/
+theorem stat_no_inplace_write (S : Nat → SObj) (sh : List Nat) (h : Heap) (c : StatCall)
+    (hc : Coherent S h) (hatt : c.att < h.nv) :
+    Frame h (implStatH false S sh h c).1 ∧ Coherent S (implStatH false S sh h c).1 :=
+  let r := Lemmas.C10Seq.implStatH_spec S sh h c hc hatt
+  ⟨r.1, r.2.1⟩
+
+open GlueVerif.StatsSeq in
+/-- **The heap program is the pure model.** On any heap that holds the dataset `D` (components
+`0 … n-1`) and a coherent cache, the value of a statistic call is `implStat` — the function all the
+theorems above are about — of the *original* component values and the *original* selection. -/
+theorem stat_heap_refines_pure (S : Nat → SObj) (sh : List Nat) (D : Nat → Idx → Val) (n : Nat)
+    (h : Heap) (c : StatCall) (hg : Good S D n h) (hatt : c.att < n) :
+    (implStatH false S sh h c).2 =
+      implStat c.cfg sh (D c.att) (selOf S c.sid) c.vk c.v c.ak c.red c.nmax := by
+  rw [(Lemmas.C10Seq.implStatH_spec S sh h c hg.coh (Nat.lt_of_lt_of_le hatt hg.nv)).2.2]
+  simp only [pureStat, hg.vals c.att hatt]
+
+open GlueVerif.StatsSeq in
+/-- **The result of call `k` of any sequence equals the result of the same call made alone.** For
+every dataset, every family of subset-state objects (memoised or not, shared between calls or not),
+every sequence of statistic and histogram calls executed in order on the same objects and every `k`:
+the `k`-th result is what the call returns on the initial heap, and both are the pure model's value
+on the original data and selection — so `stat_refines_spec_partial`, `hist_total`, … apply to every
+call of the sequence. -/
+theorem stat_sequence_independent (S : Nat → SObj) (sh : List Nat) (D : Nat → Idx → Val) (n : Nat)
+    (h0 : Heap) (hg : Good S D n h0) (calls : List Call)
+    (hatt : ∀ c ∈ calls, ∀ a ∈ c.atts, a < n) (k : Nat) (hk : k < calls.length) :
+    (runSeq false S sh h0 calls).2[k]? = some (callH false S sh h0 calls[k]).2 ∧
+      (runSeq false S sh h0 calls).2[k]? = some (pureCall S sh D calls[k]) := by
+  have hs := (Lemmas.C10Seq.runSeq_spec S sh D n calls h0 hg hatt).2.2
+  have h1 := (Lemmas.C10Seq.callH_spec S sh D n h0 calls[k] hg
+    (hatt _ (List.getElem_mem hk))).2.2
+  rw [hs, h1, List.getElem?_map, List.getElem?_eq_getElem hk]
+  exact ⟨rfl, rfl⟩
+
+open GlueVerif.StatsSeq in
+/-- **Operands unchanged.** After any sequence of calls every object of the initial heap has its
+initial value (component arrays, cached masks), the heap still holds the dataset, and `to_mask` of any
+state object — cached or not, in either call form, for any view — still yields the original mask. -/
+theorem stat_sequence_operands_unchanged (S : Nat → SObj) (sh : List Nat) (D : Nat → Idx → Val)
+    (n : Nat) (h0 : Heap) (hg : Good S D n h0) (calls : List Call)
+    (hatt : ∀ c ∈ calls, ∀ a ∈ c.atts, a < n) :
+    Frame h0 (runSeq false S sh h0 calls).1 ∧ Good S D n (runSeq false S sh h0 calls).1 ∧
+      ∀ key, (toMaskH S (runSeq false S sh h0 calls).1 key).1.bools
+        (toMaskH S (runSeq false S sh h0 calls).1 key).2 = maskContent S key := by
+  obtain ⟨f, g, _⟩ := Lemmas.C10Seq.runSeq_spec S sh D n calls h0 hg hatt
+  exact ⟨f, g, fun key => (Lemmas.C10Seq.toMaskH_spec S _ key g.coh).2.2.2.1⟩
+
+-- the hypotheses are satisfiable: the initial heap of any dataset is `Good`
+open GlueVerif.StatsSeq in
+example (S : Nat → SObj) (D : Nat → Idx → Val) (n : Nat) : Good S D n (initHeap D n) :=
+  Lemmas.C10Seq.good_init S D n
+
+/-- Value of cell `k` of the `i`-th output of a sequence. -/
+def seqCell (outs : List StatsSeq.Out) (i : Nat) (k : Idx) : Option Val :=
+  match outs[i]? with
+  | some (.res r) => some (r.cell k)
+  | _ => none
+
+open GlueVerif.StatsSeq in
+/-- Witness that the heap model can express the defect the sequence theorems exclude (the seeded
+variant `keep = mask`, `reuse = true`): `x = [1, nan, 3]`, `y = [10, 20, 30]`, one memoised state
+selecting everything.  `mean(x | s)` then `sum(y | s)`: as coded both are right (2 and 60); with
+`keep = mask` the first call is still right but filters the cached mask in place (through the
+`mask[subarray_slices]` view) and the second call returns 40 — while the same call made alone
+returns 60. -/
+theorem seq_alias_witness :
+    let S : Nat → SObj := fun _ => ⟨.mask fun _ => true, true⟩
+    let D : Nat → Idx → Val := fun a i =>
+      if a = 0 then (match i with | [0] => .fin 1 | [1] => .nan | _ => .fin 3)
+      else (match i with | [0] => .fin 10 | [1] => .fin 20 | _ => .fin 30)
+    let c1 : Call := .stat ⟨⟨.mean, true, false⟩, 0, some 0, .none, fullView [3], .none, [true], 40000000⟩
+    let c2 : Call := .stat ⟨⟨.sum, true, false⟩, 1, some 0, .none, fullView [3], .none, [true], 40000000⟩
+    seqCell (runSeq false S [3] (initHeap D 2) [c1, c2]).2 0 [] = some (.fin 2) ∧
+    seqCell (runSeq false S [3] (initHeap D 2) [c1, c2]).2 1 [] = some (.fin 60) ∧
+    seqCell (runSeq true S [3] (initHeap D 2) [c1, c2]).2 0 [] = some (.fin 2) ∧
+    seqCell (runSeq true S [3] (initHeap D 2) [c1, c2]).2 1 [] = some (.fin 40) ∧
+    seqCell (runSeq true S [3] (initHeap D 2) [c2]).2 0 [] = some (.fin 60) := by
   decide +kernel
 
 /-! ## histograms -/
